@@ -251,7 +251,7 @@ class Prog:
           self.lines.append(f'{v2} = {rhs}')
       elif self.cf:
         self.constructs.add('control-flow')
-        which = rng.choice(['if', 'for', 'comp'])
+        which = rng.choice(['if', 'for', 'comp', 'for-over-calls', 'comp-over-calls'])
         if which == 'if':
           e1, e2 = self.call(1), self.expr(1)
           v = self.newvar('obj')
@@ -265,6 +265,17 @@ class Prog:
           self.lines.append(f'{v} = []')
           self.lines.append(f'for i in range({self.params[0]}):')
           self.lines.append(f'  {v}.append(K.two(x=i, y={a}))')
+        elif which == 'for-over-calls':
+          # the iterable itself holds configurable calls
+          c1, c2, a = self.call(1), self.call(1), self.atom()
+          v = self.newvar('list')
+          self.lines.append(f'{v} = []')
+          self.lines.append(f'for it in ({c1}, {c2}):')
+          self.lines.append(f'  {v}.append(K.two(x=it, y={a}))')
+        elif which == 'comp-over-calls':
+          c1, c2 = self.call(1), self.call(1)
+          v = self.newvar('list')
+          self.lines.append(f'{v} = [K.Base(x=1, child=it) for it in [{c1}, {c2}]]')
         else:
           a = self.atom()
           v = self.newvar('list')
